@@ -182,52 +182,38 @@ def _offsets(repo, col):
     ri = next((k.value for c in exn.calls if isinstance(c.func, ast.Name) and c.func.id == "JaxleySolveIndexer" for k in c.keywords if k.arg == "root_inds"), None)
     col.check(ri is not None and unparse(ri) == "self._cumsum_nbranches[:-1]", R, nj, "roots of the network = first branch of every cell",
               "cumsum_nbranches[:-1]", f"root_inds is {unparse(ri) if ri is not None else None}", node=ri or nj.node)
-    # ---- edge blocks of the generic sparse system
+    # ---- edge blocks of the generic sparse system: the method is EXECUTED ABSTRACTLY for one symbolic cell (compartment
+    # offset Noff, branch-point offset Poff, ncell compartments, Ntot compartments in the network); what reaches pd.concat
+    # is a set of blocks (edge types, source offset, sink offset, type offset).  Loops over zip(...), a table-driven loop,
+    # a local helper or comprehensions all reduce to the same blocks.
     ns = repo.method("Network", "_init_morph_jax_spsolve")
-    loops = [n for n in walk_no_nested(ns.node) if isinstance(n, ast.For)]
     ev = kin.new_eval(repo)
-    env = {"offset": kin.A("Noff"), "offset_branchpoints": kin.A("Poff"), "start_branchpoints": kin.A("Ntot"),
-           "offset_within_cell": kin.A("ncell")}
-    ctx = {"mod": repo.mods[ns.file], "cls": "Network", "defining_cls": "Network"}
     bp = parse_ref(ev, "Ntot - ncell + Poff")
     N = Rat.atom("Noff")
     want = {frozenset({0}): (N, N), frozenset({1, 2}): (bp, N), frozenset({3, 4}): (N, bp)}
-    seen = set()
-    for lp in loops:
-        types = None
-        for n in ast.walk(lp):
-            if isinstance(n, ast.Compare) and "['type']" in unparse(n.left) and isinstance(n.ops[0], ast.Eq):
-                types = frozenset({n.comparators[0].value})
-            if isinstance(n, ast.Call) and isinstance(n.func, ast.Attribute) and n.func.attr == "isin" and "['type']" in unparse(n.func.value):
-                types = frozenset(x.value for x in n.args[0].elts)
-        lst = None
-        for n in ast.walk(lp):
-            if isinstance(n, ast.BinOp) and isinstance(n.op, ast.Add) and isinstance(n.left, ast.List) and len(n.left.elts) == 3 \
-                    and unparse(n.right) == "rows":
-                lst = n.left
-        if types is None or lst is None or types not in want:
+    try:
+        blocks = _edge_blocks(repo, ns)
+    except Und as e:
+        raise AnalysisError(f"Network._init_morph_jax_spsolve: edge blocks not derivable ({e})")
+    seen = {}
+    for types, a, b_, c, node in blocks:
+        seen.setdefault(types, []).append((a, b_, c, node))
+    for types, (ws, wk) in want.items():
+        got = seen.get(types)
+        if not got:
+            col.bad(R, ns, f"edge block of types {sorted(types)}", f"no edges of types {sorted(types)} are added to the network's edge table",
+                    node=ns.node)
             continue
-        seen.add(types)
-        try:
-            a, b, c = (rat_of(ev.ev(x, dict(env), ctx)) for x in lst.elts)
-        except Und as e:
-            col.unk(R, ns, f"edge block of types {sorted(types)}", str(e), node=lst)
-            continue
-        ws, wk = want[types]
-        ok = a.eq(ws) and b.eq(wk) and c.is_zero()
-        col.check(ok, R, ns, f"edge block of types {sorted(types)}: (source, sink) offsets",
-                  f"source += {ws}, sink += {wk}",
-                  f"edges of types {sorted(types)} are shifted by (source {a}, sink {b}, type {c}); required (source {ws}, sink {wk}, "
-                  f"type 0): compartments by the compartment offset of the cell, branch points by "
-                  f"total compartments - compartments of the cell + branch-point offset", node=lst)
-        # loop zips offsets with the cells in the same order
-        it = unparse(lp.iter)
-        want_it = "zip(self._cumsum_ncomp_per_cell, self._cells_list)" if types == frozenset({0}) else \
-            "zip(self._cumsum_ncomp_per_cell, self._cumsum_nbranchpoints_per_cell, self._cells_list)"
-        col.check(it == want_it, R, ns, f"edge block of types {sorted(types)}: offsets zipped with their cells", want_it,
-                  f"loop iterates {it}", node=lp)
-    if len(seen) != 3:
-        raise AnalysisError(f"Network._init_morph_jax_spsolve: edge blocks found for {sorted(map(sorted, seen))} only")
+        for a, b_, c, node in got:
+            ok = a.eq(ws) and b_.eq(wk) and c.is_zero()
+            col.check(ok, R, ns, f"edge block of types {sorted(types)}: (source, sink) offsets",
+                      f"source += {ws}, sink += {wk}",
+                      f"edges of types {sorted(types)} are shifted by (source {a}, sink {b_}, type {c}); required (source {ws}, sink {wk}, "
+                      f"type 0): compartments by the compartment offset of the cell, branch points by "
+                      f"total compartments - compartments of the cell + branch-point offset", node=node)
+    extra = [t for t in seen if t not in want]
+    col.check(not extra, R, ns, "edge types are added in the groups {0}, {1,2}, {3,4}", "", f"unexpected grouping of edge types {sorted(map(sorted, extra))}",
+              node=ns.node)
     # column order of the cell's edge table is (source, sink, type)
     cj = repo.method("Cell", "_init_morph_jax_spsolve")
     first = None
@@ -243,6 +229,262 @@ def _offsets(repo, col):
     t = unparse(st[0].stmt.value) if st else ""
     col.check(t == "cumsum_leading_zero(jnp.asarray([cell.cumsum_ncomp[-1] for cell in self.cells]))", R, ns,
               "compartment offsets = leading-zero cumsum of the cells' compartment counts", "", f"is {t}", node=st[0].node if st else ns.node)
+
+
+class _Seq:
+    """one symbolic element standing for every cell: zip / comprehensions over such sequences stay one element long"""
+    def __init__(self, elem):
+        self.elem = elem
+
+
+class _TypeCol:
+    pass
+
+
+class _Sel:
+    def __init__(self, types):
+        self.types = frozenset(types)
+
+
+class _Rows:
+    def __init__(self, types):
+        self.types = types
+
+
+class _Block:
+    def __init__(self, types, a, b, c, node):
+        self.types, self.a, self.b, self.c, self.node = types, a, b, c, node
+
+
+class _Frame:
+    def __init__(self, blocks=()):
+        self.blocks = list(blocks)
+
+
+class _Closure:
+    def __init__(self, node, env):
+        self.node, self.env = node, env
+
+
+def _edge_blocks(repo, fi):
+    from sa.algebra import ObjV, StrV, NONE
+    A = kin.A
+    cell = ObjV("Cell", {"_comp_edges": "EDGES", "cumsum_ncomp": "CUMSUM_CELL"})
+    selfv = {"_cumsum_ncomp_per_cell": _Seq(A("Noff")), "_cumsum_nbranchpoints_per_cell": _Seq(A("Poff")), "_cells_list": _Seq(cell),
+             "cells": _Seq(cell), "cumsum_ncomp": "CUMSUM_NET", "_comp_edges": _Frame(), "_par_inds": _Seq(A("par"))}
+    out = []
+    ctx = {"mod": repo.mods[fi.file], "cls": "Network", "defining_cls": "Network"}
+
+    def flatten(v):
+        if isinstance(v, _Block):
+            return [v]
+        if isinstance(v, _Frame):
+            return list(v.blocks)
+        if isinstance(v, _Seq):
+            return flatten(v.elem)
+        if isinstance(v, (tuple, list)):
+            return [x for y in v for x in flatten(y)]
+        return []
+
+    def truth(v):
+        if isinstance(v, StrV) and v.s in ("True", "False"):
+            return v.s == "True"
+        return None
+
+    def ev(e, env):
+        if isinstance(e, ast.Constant):
+            if isinstance(e.value, bool):
+                return StrV(repr(e.value))
+            if isinstance(e.value, (int, float)):
+                return A("0") if False else PW.of(Rat.const(e.value))
+            if e.value is None:
+                return NONE
+            return StrV(str(e.value))
+        if isinstance(e, ast.Name):
+            if e.id in env:
+                return env[e.id]
+            raise Und(f"name {e.id}")
+        if isinstance(e, ast.Attribute):
+            if isinstance(e.value, ast.Name) and e.value.id == "self":
+                if e.attr in selfv:
+                    return selfv[e.attr]
+                raise Und(f"self.{e.attr}")
+            base = ev(e.value, env)
+            if isinstance(base, ObjV) and e.attr in base.attrs:
+                return base.attrs[e.attr]
+            raise Und(f"attribute {ast.unparse(e)[:40]}")
+        if isinstance(e, (ast.List, ast.Tuple)):
+            return tuple(ev(x, env) for x in e.elts)
+        if isinstance(e, ast.IfExp):
+            t = truth(ev(e.test, env))
+            if t is None:
+                raise Und("undecidable conditional expression")
+            return ev(e.body if t else e.orelse, env)
+        if isinstance(e, ast.UnaryOp) and isinstance(e.op, ast.USub):
+            v = ev(e.operand, env)
+            return PW.of(-rat_of(v))
+        if isinstance(e, ast.Subscript):
+            base = ev(e.value, env)
+            if base == "EDGES":
+                if isinstance(e.slice, ast.Constant) and e.slice.value == "type":
+                    return _TypeCol()
+                sel = ev(e.slice, env)
+                if isinstance(sel, _Sel):
+                    return _Rows(sel.types)
+                raise Und("selection of edge rows")
+            if base == "CUMSUM_CELL" and ast.unparse(e.slice) == "-1":
+                return A("ncell")
+            if base == "CUMSUM_NET" and ast.unparse(e.slice) == "-1":
+                return A("Ntot")
+            if isinstance(base, tuple):
+                i = ev(e.slice, env)
+                return base[int(rat_of(i).const_value())]
+            raise Und(f"subscript {ast.unparse(e)[:40]}")
+        if isinstance(e, ast.Compare) and len(e.ops) == 1 and isinstance(e.ops[0], ast.Eq):
+            l, r = ev(e.left, env), ev(e.comparators[0], env)
+            if isinstance(l, _TypeCol):
+                return _Sel([int(rat_of(r).const_value())])
+            raise Und("comparison")
+        if isinstance(e, ast.BinOp):
+            l, r = ev(e.left, env), ev(e.right, env)
+            if isinstance(e.op, ast.Add) and isinstance(l, tuple) and isinstance(r, _Rows) and len(l) == 3:
+                return _Block(r.types, rat_of(l[0]), rat_of(l[1]), rat_of(l[2]), e)
+            if isinstance(e.op, ast.Add) and isinstance(l, tuple) and isinstance(r, tuple):
+                return l + r
+            if isinstance(l, PW) and isinstance(r, PW):
+                a_, b_ = rat_of(l), rat_of(r)
+                ops = {ast.Add: lambda: a_ + b_, ast.Sub: lambda: a_ - b_, ast.Mult: lambda: a_ * b_}
+                if type(e.op) in ops:
+                    return PW.of(ops[type(e.op)]())
+            raise Und(f"operator in {ast.unparse(e)[:40]}")
+        if isinstance(e, (ast.ListComp, ast.GeneratorExp)):
+            g = e.generators[0]
+            it = ev(g.iter, env)
+            if len(e.generators) != 1 or g.ifs:
+                raise Und("comprehension")
+            if isinstance(it, _Seq):
+                e2 = dict(env)
+                bind(g.target, it.elem, e2)
+                return _Seq(ev(e.elt, e2))
+            if isinstance(it, tuple):
+                res = []
+                for el in it:
+                    e2 = dict(env)
+                    bind(g.target, el, e2)
+                    res.append(ev(e.elt, e2))
+                return tuple(res)
+            raise Und("comprehension over an unknown value")
+        if isinstance(e, ast.Call):
+            fn = e.func
+            fname = ast.unparse(fn)
+            if isinstance(fn, ast.Name) and isinstance(env.get(fn.id), _Closure):
+                cl = env[fn.id]
+                e2 = dict(cl.env)
+                a_ = cl.node.args
+                names = [x.arg for x in a_.posonlyargs + a_.args]
+                for nm, arg in zip(names, e.args):
+                    e2[nm] = ev(arg, env)
+                for k in e.keywords:
+                    e2[k.arg] = ev(k.value, env)
+                r = run(cl.node.body, e2)
+                return NONE if r is None else r
+            if fname == "zip":
+                args = [ev(x, env) for x in e.args]
+                if all(isinstance(x, _Seq) for x in args):
+                    return _Seq(tuple(x.elem for x in args))
+                raise Und("zip of unknown sequences")
+            if fname == "enumerate":
+                a0 = ev(e.args[0], env)
+                if isinstance(a0, _Seq):
+                    return _Seq((A("i"), a0.elem))
+                raise Und("enumerate")
+            if fname in ("pd.concat", "pandas.concat"):
+                return _Frame(flatten(ev(e.args[0], env)))
+            if fname in ("pd.DataFrame", "pandas.DataFrame") and not e.args:
+                return _Frame()
+            if fname in ("cumsum_leading_zero", "jnp.asarray", "np.asarray", "int", "len", "list"):
+                v = ev(e.args[0], env) if e.args else NONE
+                return v if fname in ("list", "jnp.asarray", "np.asarray") else _Seq(A("x"))
+            if isinstance(fn, ast.Attribute):
+                recv = ev(fn.value, env)
+                if isinstance(recv, _TypeCol) and fn.attr == "isin":
+                    v = ev(e.args[0], env)
+                    return _Sel([int(rat_of(x).const_value()) for x in v])
+                if isinstance(recv, _TypeCol) and fn.attr in ("to_numpy", "astype"):
+                    return recv
+                if isinstance(recv, _Frame) and fn.attr in ("astype", "reset_index", "copy"):
+                    return recv
+            raise Und(f"call {fname[:40]}")
+        raise Und(f"expression {type(e).__name__}")
+
+    def bind(t, v, env):
+        if isinstance(t, ast.Name):
+            env[t.id] = v
+        elif isinstance(t, (ast.Tuple, ast.List)):
+            if not isinstance(v, tuple) or len(v) != len(t.elts):
+                raise Und("unpacking")
+            for tt, vv in zip(t.elts, v):
+                bind(tt, vv, env)
+        elif isinstance(t, ast.Attribute) and isinstance(t.value, ast.Name) and t.value.id == "self":
+            selfv[t.attr] = v
+        else:
+            raise Und("assignment target")
+
+    def run(stmts, env):
+        for st in stmts:
+            if isinstance(st, ast.Expr):
+                if isinstance(st.value, ast.Constant):
+                    continue
+                c = st.value
+                if isinstance(c, ast.Call) and isinstance(c.func, ast.Attribute) and c.func.attr in ("append", "extend") and \
+                        isinstance(c.func.value, ast.Name) and isinstance(env.get(c.func.value.id), tuple):
+                    v = ev(c.args[0], env)
+                    env[c.func.value.id] = env[c.func.value.id] + ((v,) if c.func.attr == "append" else tuple(v))
+                    continue
+                raise Und(f"statement {ast.unparse(st)[:40]}")
+            if isinstance(st, ast.Assign):
+                names = [ast.unparse(t) for t in st.targets]
+                if any(n in ("self._n_nodes", "self._data_inds", "self._indices_jax_spsolve", "self._indptr_jax_spsolve",
+                             "self._cumsum_ncomp_per_cell") or "n_nodes" in n
+                       for n in names):
+                    continue  # conversion to CSC, decided by R-C01-assembly
+                v = ev(st.value, env)
+                for t in st.targets:
+                    bind(t, v, env)
+                continue
+            if isinstance(st, ast.For):
+                it = ev(st.iter, env)
+                elems = [it.elem] if isinstance(it, _Seq) else (list(it) if isinstance(it, tuple) else None)
+                if elems is None:
+                    raise Und("loop over an unknown value")
+                for el in elems:
+                    bind(st.target, el, env)
+                    r = run(st.body, env)
+                    if r is not None:
+                        return r
+                continue
+            if isinstance(st, ast.FunctionDef):
+                env[st.name] = _Closure(st, env)
+                continue
+            if isinstance(st, ast.Return):
+                return ev(st.value, env) if st.value is not None else NONE
+            if isinstance(st, ast.If):
+                t = truth(ev(st.test, env))
+                if t is None:
+                    raise Und("undecidable branch")
+                r = run(st.body if t else st.orelse, env)
+                if r is not None:
+                    return r
+                continue
+            if isinstance(st, ast.Pass):
+                continue
+            raise Und(f"statement {type(st).__name__}")
+        return None
+
+    run(fi.node.body, {})
+    final = selfv.get("_comp_edges")
+    blocks = flatten(final)
+    return [(b.types, b.a, b.b, b.c, b.node) for b in blocks]
 
 
 def _channels(repo, col):
